@@ -1,7 +1,7 @@
 (** Proofs about the codec mirrors of Model/Codec.v (property C13):
     round trips, independence of the reader's chunking, rejection of every strict prefix,
     predicted size, failing sinks, and the link between the niece view and the reference forest. *)
-From Coq Require Import Arith NArith List Bool Lia ZifyN ZifyNat ZifyBool.
+From Coq Require Import Arith NArith List Bool Lia ZifyN ZifyNat ZifyBool Permutation.
 From Utreexo Require Import Base.Bits64 Base.Hash Spec.Forest Model.Codec.
 Import ListNotations.
 Open Scope N_scope.
@@ -1234,4 +1234,465 @@ Lemma nodemap_size_nodup img :
 Proof.
   intros Hnd. unfold nodemap_size, count_leaves. rewrite dedup_bytes_nodup by exact Hnd.
   unfold pimage_minis. apply map_length.
+Qed.
+
+(** * The niece view of the reference forest *)
+Lemma popcount_double x : popcount (2 * x) = popcount x.
+Proof. destruct x; reflexivity. Qed.
+
+Lemma popcount_double1 x : popcount (2 * x + 1) = 1 + popcount x.
+Proof. destruct x; reflexivity. Qed.
+
+Lemma popcount_pow_add (k : nat) : forall m,
+  m < 2 ^ N.of_nat k -> popcount (2 ^ N.of_nat k + m) = 1 + popcount m.
+Proof.
+  induction k as [|k IH]; intros m Hm.
+  - change (2 ^ N.of_nat 0) with 1 in *. replace m with 0 by lia. reflexivity.
+  - rewrite Nat2N.inj_succ, N.pow_succ_r' in *.
+    pose proof (N.div_mod' m 2) as Hdm.
+    assert (Hb : m mod 2 = 0 \/ m mod 2 = 1)
+      by (pose proof (N.mod_lt m 2 ltac:(discriminate)); lia).
+    assert (Hq : m / 2 < 2 ^ N.of_nat k) by (apply N.div_lt_upper_bound; [discriminate|lia]).
+    specialize (IH (m / 2) Hq).
+    destruct Hb as [Hb|Hb]; rewrite Hb in Hdm.
+    + replace (2 * 2 ^ N.of_nat k + m) with (2 * (2 ^ N.of_nat k + m / 2)) by lia.
+      rewrite popcount_double, IH.
+      replace m with (2 * (m / 2)) at 2 by lia. now rewrite popcount_double.
+    + replace (2 * 2 ^ N.of_nat k + m) with (2 * (2 ^ N.of_nat k + m / 2) + 1) by lia.
+      rewrite popcount_double1, IH.
+      replace m with (2 * (m / 2) + 1) at 2 by lia. now rewrite popcount_double1.
+Qed.
+
+Section NieceViewFacts.
+  Variable H : Type.
+  Variable HO : ops H.
+  Variable bytes_of : H -> list byte.
+
+  Fixpoint leaves (t : ctree H) : list H :=
+    match t with
+    | CLeaf h => [h]
+    | CNode _ l r => leaves l ++ leaves r
+    end.
+  Definition opt_leaves (o : option (ctree H)) : list H :=
+    match o with None => [] | Some t => leaves t end.
+  Definition self_leaf (t : ctree H) : list H :=
+    match t with CLeaf h => [h] | CNode _ _ _ => [] end.
+  Definition sub_leaves (t : ctree H) : list H :=
+    match t with CLeaf _ => [] | CNode _ l r => leaves l ++ leaves r end.
+
+  Lemma leaves_split t : leaves t = self_leaf t ++ sub_leaves t.
+  Proof. destruct t; reflexivity. Qed.
+
+  Fixpoint ctree_all (P : H -> Prop) (t : ctree H) : Prop :=
+    P (chash t) /\
+    match t with
+    | CLeaf _ => True
+    | CNode _ l r => ctree_all P l /\ ctree_all P r
+    end.
+  Definition opt_all (P : H -> Prop) (o : option (ctree H)) : Prop :=
+    match o with None => True | Some t => ctree_all P t end.
+
+  Definition len32 (h : H) : Prop := length (bytes_of h) = 32%nat.
+  Definition nonzero (h : H) : Prop := is_zeros (bytes_of h) = false.
+
+  Lemma ctree_all_root (P : H -> Prop) t : ctree_all P t -> P (chash t).
+  Proof. destruct t; cbn [ctree_all]; tauto. Qed.
+
+  Lemma wf_enc2 y : forall x,
+    len32 (chash x) -> ctree_all len32 y -> wf_ptree (enc2 bytes_of x y).
+  Proof.
+    induction y as [h|h l IHl r IHr]; intros x Hx Hy; cbn [enc2 wf_ptree].
+    - split; [exact Hx|exact I].
+    - cbn [ctree_all] in Hy. destruct Hy as (_ & Hl & Hr).
+      split; [exact Hx|]. split.
+      + apply IHr; [apply ctree_all_root; exact Hl|exact Hr].
+      + apply IHl; [apply ctree_all_root; exact Hr|exact Hl].
+  Qed.
+
+  Lemma self_leaf_hashes x :
+    (forall h, In h (self_leaf x) -> nonzero h) ->
+    (if is_leafc x && negb (is_zeros (bytes_of (chash x))) then [bytes_of (chash x)] else [])
+    = map bytes_of (self_leaf x).
+  Proof.
+    destruct x as [h|h l r]; cbn [is_leafc chash self_leaf map andb]; [|reflexivity].
+    intros Hnz. rewrite (Hnz h) by (now left). reflexivity.
+  Qed.
+
+  Lemma leaf_hashes_enc2 y : forall x,
+    (forall h, In h (self_leaf x) -> nonzero h) ->
+    (forall h, In h (sub_leaves y) -> nonzero h) ->
+    Permutation (ptree_leaf_hashes (enc2 bytes_of x y))
+                (map bytes_of (self_leaf x ++ sub_leaves y)).
+  Proof.
+    induction y as [h|h l IHl r IHr]; intros x Hx Hy; cbn [enc2 ptree_leaf_hashes].
+    - rewrite self_leaf_hashes by exact Hx. cbn [sub_leaves]. now rewrite !app_nil_r.
+    - rewrite self_leaf_hashes by exact Hx. rewrite map_app. apply Permutation_app_head.
+      cbn [sub_leaves] in *.
+      assert (Hl : forall h, In h (leaves l) -> nonzero h)
+        by (intros h' Hin; apply Hy, in_or_app; now left).
+      assert (Hr : forall h, In h (leaves r) -> nonzero h)
+        by (intros h' Hin; apply Hy, in_or_app; now right).
+      rewrite (leaves_split l) in Hl |- *. rewrite (leaves_split r) in Hr |- *.
+      rewrite (IHr l), (IHl r).
+      + rewrite !map_app.
+        rewrite <- !app_assoc. apply Permutation_app_head.
+        etransitivity; [apply Permutation_app_comm|].
+        rewrite <- app_assoc. apply Permutation_app_swap_app.
+      + intros h' Hin. apply Hr, in_or_app. now left.
+      + intros h' Hin. apply Hl, in_or_app. now right.
+      + intros h' Hin. apply Hl, in_or_app. now left.
+      + intros h' Hin. apply Hr, in_or_app. now right.
+  Qed.
+
+  Lemma root_view_enc2 t : root_view bytes_of (Some t) = enc2 bytes_of t t.
+  Proof. destruct t; reflexivity. Qed.
+
+  Lemma wf_root_view o : opt_all len32 o -> wf_ptree (root_view bytes_of o).
+  Proof.
+    destruct o as [t|]; cbn [opt_all].
+    - intros Ht. rewrite root_view_enc2. apply wf_enc2; [apply ctree_all_root|]; exact Ht.
+    - intros _. split; [reflexivity|exact I].
+  Qed.
+
+  Lemma leaf_hashes_root_view o :
+    (forall h, In h (opt_leaves o) -> nonzero h) ->
+    Permutation (ptree_leaf_hashes (root_view bytes_of o)) (map bytes_of (opt_leaves o)).
+  Proof.
+    destruct o as [t|]; cbn [opt_leaves].
+    - intros Hnz. rewrite root_view_enc2, (leaves_split t) in *.
+      apply leaf_hashes_enc2; intros h Hin; apply Hnz, in_or_app; [now left|now right].
+    - intros _. cbn. apply perm_nil.
+  Qed.
+
+  (** ** Compression *)
+  Notation hash2 := (op_hash2 HO).
+
+  Lemma opt_leaves_join a b : opt_leaves (join HO a b) = opt_leaves a ++ opt_leaves b.
+  Proof. destruct a, b; cbn [join opt_leaves leaves]; rewrite ?app_nil_r; reflexivity. Qed.
+
+  Lemma live_app (a b : slots H) : live (a ++ b) = live a ++ live b.
+  Proof. unfold live. apply flat_map_app. Qed.
+
+  Lemma pow2_S k : (2 ^ S k = 2 ^ k + 2 ^ k)%nat.
+  Proof. cbn [Nat.pow]. lia. Qed.
+
+  Lemma opt_leaves_compress k : forall seg,
+    opt_leaves (compress HO k seg) = live (firstn (2 ^ k) seg).
+  Proof.
+    induction k as [|k IH]; intros seg.
+    - cbn [compress Nat.pow]. destruct seg as [|[h|] seg]; reflexivity.
+    - cbn [compress]. rewrite opt_leaves_join, !IH, firstn_firstn, Nat.min_id.
+      now rewrite pow2_S, firstn_plus, live_app.
+  Qed.
+
+  Lemma opt_all_join (P : H -> Prop) a b :
+    (forall x y, P (hash2 x y)) -> opt_all P a -> opt_all P b -> opt_all P (join HO a b).
+  Proof.
+    intros Hh Ha Hb. destruct a as [ta|], b as [tb|]; cbn [join opt_all] in *; try assumption.
+    cbn [ctree_all chash]. auto.
+  Qed.
+
+  Lemma opt_all_compress (P : H -> Prop) k : forall seg,
+    (forall x y, P (hash2 x y)) -> (forall h, In h (live seg) -> P h) ->
+    opt_all P (compress HO k seg).
+  Proof.
+    induction k as [|k IH]; intros seg Hh Hl.
+    - cbn [compress]. destruct seg as [|[h|] seg]; cbn [opt_all ctree_all chash]; auto.
+      split; [|exact I]. apply Hl. cbn. now left.
+    - cbn [compress]. apply opt_all_join; [exact Hh| |]; apply IH; try exact Hh;
+        intros h Hin; apply Hl; rewrite <- (firstn_skipn (2 ^ k) seg), live_app; apply in_or_app;
+        [now left|now right].
+  Qed.
+
+  (** ** Trees *)
+  Lemma trees_has k lo s :
+    (2 ^ k <= length s)%nat ->
+    trees HO k lo s =
+    (k, lo, compress HO k (firstn (2 ^ k) s)) ::
+    match k with
+    | O => []
+    | S k' => trees HO k' (lo + N.of_nat (2 ^ k)) (skipn (2 ^ k) s)
+    end.
+  Proof.
+    intros Hle. destruct k as [|k']; cbn [trees];
+      (replace (Nat.leb _ (length s)) with true by (symmetry; apply Nat.leb_le; exact Hle));
+      reflexivity.
+  Qed.
+
+  Lemma trees_not k lo s :
+    (length s < 2 ^ k)%nat ->
+    trees HO k lo s = match k with O => [] | S k' => trees HO k' lo s end.
+  Proof.
+    intros Hlt. destruct k as [|k']; cbn [trees];
+      (replace (Nat.leb _ (length s)) with false by (symmetry; apply Nat.leb_gt; exact Hlt));
+      reflexivity.
+  Qed.
+
+  Definition tree_leaves (ts : list (nat * N * option (ctree H))) : list H :=
+    flat_map (fun e => opt_leaves (snd e)) ts.
+
+  Lemma trees_leaves k : forall lo s,
+    (length s < 2 ^ S k)%nat -> tree_leaves (trees HO k lo s) = live s.
+  Proof.
+    induction k as [|k IH]; intros lo s Hlen.
+    - destruct (Nat.le_gt_cases (2 ^ 0) (length s)) as [Hle|Hlt].
+      + rewrite trees_has by exact Hle. unfold tree_leaves. cbn [flat_map snd].
+        rewrite opt_leaves_compress, firstn_firstn, Nat.min_id, app_nil_r.
+        rewrite firstn_all2; [reflexivity|]. cbn [Nat.pow] in *. lia.
+      + rewrite trees_not by exact Hlt. cbn [Nat.pow] in Hlt.
+        destruct s; [reflexivity|cbn [length] in Hlt; lia].
+    - destruct (Nat.le_gt_cases (2 ^ S k) (length s)) as [Hle|Hlt].
+      + rewrite trees_has by exact Hle. unfold tree_leaves. cbn [flat_map snd].
+        fold (tree_leaves (trees HO k (lo + N.of_nat (2 ^ S k)) (skipn (2 ^ S k) s))).
+        rewrite IH by (rewrite skipn_length; rewrite (pow2_S (S k)) in Hlen; lia).
+        rewrite opt_leaves_compress, firstn_firstn, Nat.min_id, <- live_app.
+        now rewrite firstn_skipn.
+      + rewrite trees_not by exact Hlt. apply IH. exact Hlt.
+  Qed.
+
+  Lemma trees_length k : forall lo s,
+    (length s < 2 ^ S k)%nat ->
+    N.of_nat (length (trees HO k lo s)) = popcount (N.of_nat (length s)).
+  Proof.
+    induction k as [|k IH]; intros lo s Hlen.
+    - cbn [Nat.pow] in Hlen.
+      destruct s as [|x [|y s]]; [reflexivity|reflexivity|cbn [length] in Hlen; lia].
+    - destruct (Nat.le_gt_cases (2 ^ S k) (length s)) as [Hle|Hlt].
+      + rewrite trees_has by exact Hle. cbn [length]. rewrite Nat2N.inj_succ.
+        rewrite IH by (rewrite skipn_length; rewrite (pow2_S (S k)) in Hlen; lia).
+        rewrite skipn_length.
+        replace (length s) with (2 ^ S k + (length s - 2 ^ S k))%nat at 2 by lia.
+        assert (Hp : N.of_nat (2 ^ S k) = 2 ^ N.of_nat (S k))
+          by (rewrite Nat2N.inj_pow; reflexivity).
+        rewrite Nat2N.inj_add, Hp.
+        rewrite popcount_pow_add; [lia|].
+        rewrite <- Hp. rewrite (pow2_S (S k)) in Hlen. lia.
+      + rewrite trees_not by exact Hlt. apply IH. exact Hlt.
+  Qed.
+
+  Lemma trees_all (P : H -> Prop) k : forall lo s,
+    (forall x y, P (hash2 x y)) -> (forall h, In h (live s) -> P h) ->
+    Forall (fun e => opt_all P (snd e)) (trees HO k lo s).
+  Proof.
+    induction k as [|k IH]; intros lo s Hh Hl.
+    - destruct (Nat.le_gt_cases (2 ^ 0) (length s)) as [Hle|Hlt].
+      + rewrite trees_has by exact Hle. constructor; [|constructor]. cbn [snd].
+        apply opt_all_compress; [exact Hh|]. intros h Hin. apply Hl.
+        rewrite <- (firstn_skipn (2 ^ 0) s), live_app. apply in_or_app. now left.
+      + rewrite trees_not by exact Hlt. constructor.
+    - destruct (Nat.le_gt_cases (2 ^ S k) (length s)) as [Hle|Hlt].
+      + rewrite trees_has by exact Hle. constructor.
+        * cbn [snd]. apply opt_all_compress; [exact Hh|]. intros h Hin. apply Hl.
+          rewrite <- (firstn_skipn (2 ^ S k) s), live_app. apply in_or_app. now left.
+        * apply IH; [exact Hh|]. intros h Hin. apply Hl.
+          rewrite <- (firstn_skipn (2 ^ S k) s), live_app. apply in_or_app. now right.
+      + rewrite trees_not by exact Hlt. apply IH; assumption.
+  Qed.
+
+  Lemma log2_bound n : (n < 2 ^ S (Nat.log2 n))%nat.
+  Proof.
+    destruct n as [|n]; [cbn; lia|]. apply Nat.log2_spec. lia.
+  Qed.
+
+  Lemma live_length_le (s : slots H) : (length (live s) <= length s)%nat.
+  Proof.
+    induction s as [|[h|] s IH]; cbn [live flat_map app length] in *; unfold live in *; lia.
+  Qed.
+
+  (** ** The niece view of a forest *)
+  Lemma niece_view_leaf_hashes ts :
+    (forall h, In h (tree_leaves ts) -> nonzero h) ->
+    Permutation (flat_map ptree_leaf_hashes (niece_view bytes_of ts))
+                (map bytes_of (tree_leaves ts)).
+  Proof.
+    induction ts as [|e ts IH]; intros Hnz; [apply perm_nil|].
+    unfold niece_view, tree_leaves in *. cbn [map flat_map]. rewrite map_app.
+    apply Permutation_app.
+    - apply leaf_hashes_root_view. intros h Hin. apply Hnz. cbn [flat_map]. apply in_or_app.
+      now left.
+    - apply IH. intros h Hin. apply Hnz. cbn [flat_map]. apply in_or_app. now right.
+  Qed.
+
+  Notation forest_image := (forest_image HO bytes_of).
+
+  Theorem niece_view_wf_proof (s : slots H) :
+    N.of_nat (length s) < 2 ^ 64 ->
+    N.of_nat (length (live s)) < 2 ^ 63 ->
+    (forall x y, len32 (hash2 x y)) ->
+    (forall h, In h (live s) -> len32 h /\ nonzero h) ->
+    NoDup (map (fun h => mini (bytes_of h)) (live s)) ->
+    wf_pimage (forest_image s) /\
+    count_leaves (forest_image s) = length (live s) /\
+    Permutation (pimage_leaf_hashes (forest_image s)) (map bytes_of (live s)).
+  Proof.
+    intros Hlen Hlive Hh2 Hleaf Hnd.
+    pose proof (log2_bound (length s)) as Hlog.
+    assert (Hperm : Permutation (pimage_leaf_hashes (forest_image s)) (map bytes_of (live s))).
+    { unfold pimage_leaf_hashes, forest_image. cbn [p_roots]. unfold forest.
+      rewrite <- (trees_leaves (Nat.log2 (length s)) 0 s Hlog).
+      apply niece_view_leaf_hashes. rewrite trees_leaves by exact Hlog.
+      intros h Hin. apply Hleaf. exact Hin. }
+    assert (Hcount : count_leaves (forest_image s) = length (live s)).
+    { unfold count_leaves. rewrite (Permutation_length Hperm). apply map_length. }
+    assert (Hnd' : NoDup (pimage_minis (forest_image s))).
+    { unfold pimage_minis. apply (Permutation_NoDup (l := map mini (map bytes_of (live s)))).
+      - apply Permutation_map. symmetry. exact Hperm.
+      - rewrite map_map. exact Hnd. }
+    pose proof (live_length_le s) as Hle.
+    split; [|split; assumption].
+    unfold wf_pimage. cbn [forest_image p_numleaves p_numdels p_roots]. unfold num_leaves.
+    repeat split.
+    - exact Hlen.
+    - lia.
+    - lia.
+    - unfold niece_view. rewrite map_length. unfold forest.
+      rewrite <- (trees_length (Nat.log2 (length s)) 0 s Hlog). now rewrite Nat2N.id.
+    - unfold niece_view. apply Forall_forall. intros t Ht. apply in_map_iff in Ht as [e [<- He]].
+      apply wf_root_view.
+      pose proof (trees_all len32 (Nat.log2 (length s)) 0 s Hh2
+                            (fun h Hin => proj1 (Hleaf h Hin))) as Hall.
+      exact (proj1 (Forall_forall _ _) Hall e He).
+    - rewrite nodemap_size_nodup by exact Hnd'. rewrite Hcount. lia.
+  Qed.
+End NieceViewFacts.
+
+(** * Any reader: the theorems above, restated for chunked readers *)
+Theorem pollard_any_reader_proof img cs e :
+  wf_pimage img ->
+  decode_pollard_chunked (mkReader (encode_pollard img) cs e)
+  = Ok (img, length (encode_pollard img)) /\
+  (forall k, (k < length (encode_pollard img))%nat ->
+     decode_pollard_chunked (mkReader (firstn k (encode_pollard img)) cs e) = Err).
+Proof.
+  intros Hwf. split.
+  - rewrite pollard_chunk_independent_proof. now apply pollard_roundtrip_proof.
+  - intros k Hk. rewrite pollard_chunk_independent_proof.
+    now apply pollard_prefix_rejected_proof.
+Qed.
+
+Theorem map_any_reader_proof img cs e :
+  wf_mimage img ->
+  decode_map_chunked (mkReader (encode_map img) cs e) = Ok (img, length (encode_map img)) /\
+  (forall k, (k < length (encode_map img))%nat ->
+     decode_map_chunked (mkReader (firstn k (encode_map img)) cs e) = Err).
+Proof.
+  intros Hwf. split.
+  - rewrite map_chunk_independent_proof. now apply map_roundtrip_proof.
+  - intros k Hk. rewrite map_chunk_independent_proof. now apply map_prefix_rejected_proof.
+Qed.
+
+(** restoring what [WriteTo] writes for the reference state [s] yields its niece view *)
+Theorem forest_roundtrip_proof (H : Type) (HO : ops H) (bytes_of : H -> list byte)
+        (s : slots H) :
+  N.of_nat (length s) < 2 ^ 64 ->
+  N.of_nat (length (live s)) < 2 ^ 63 ->
+  (forall x y, length (bytes_of (op_hash2 HO x y)) = 32%nat) ->
+  (forall h, In h (live s) ->
+     length (bytes_of h) = 32%nat /\ is_zeros (bytes_of h) = false) ->
+  NoDup (map (fun h => mini (bytes_of h)) (live s)) ->
+  let bytes := encode_pollard_of_forest bytes_of (forest HO s) (num_leaves s)
+                 (N.of_nat (length s - length (live s))) in
+  decode_pollard bytes = Ok (forest_image HO bytes_of s, length bytes).
+Proof.
+  intros H1 H2 H3 H4 H5 bytes.
+  destruct (niece_view_wf_proof H HO bytes_of s H1 H2 H3 H4 H5) as [Hwf _].
+  exact (pollard_roundtrip_proof _ Hwf).
+Qed.
+
+(** * Examples: the hypotheses are satisfiable *)
+Definition ex_hA : list byte := repeat 7 32.
+Definition ex_hB : list byte := 1 :: repeat 9 31.
+Definition ex_hC : list byte := 2 :: repeat 5 31.
+Definition ex_hP : list byte := repeat 3 32.
+
+(** 3 leaves, 1 deleted: a tree of two leaves and a root without survivors *)
+Definition ex_pimage : pimage :=
+  mkPimage 3 1
+    [PNode ex_hP false (Some (PNode ex_hA true None, PNode ex_hB true None));
+     PNode zeros32 true None].
+
+Example ex_pimage_wf : wf_pimage ex_pimage.
+Proof. apply wf_pimageb_sound. vm_compute. reflexivity. Qed.
+
+Example ex_pollard_roundtrip :
+  decode_pollard (encode_pollard ex_pimage) = Ok (ex_pimage, 152%nat).
+Proof. vm_compute. reflexivity. Qed.
+
+Example ex_pollard_chunked :
+  decode_pollard_chunked (mkReader (encode_pollard ex_pimage) [3; 0; 100; 2]%nat true)
+  = Ok (ex_pimage, 152%nat).
+Proof. vm_compute. reflexivity. Qed.
+
+Example ex_pollard_prefix :
+  forallb (fun k => match decode_pollard (firstn k (encode_pollard ex_pimage)) with
+                    | Err => true
+                    | _ => false
+                    end) (seq 0 152) = true.
+Proof. vm_compute. reflexivity. Qed.
+
+Example ex_pollard_size :
+  node_count ex_pimage = 4%nat /\ length (encode_pollard ex_pimage) = (16 + 34 * 4)%nat /\
+  serialize_size ex_pimage = 152%nat.
+Proof. vm_compute. auto. Qed.
+
+Example ex_pollard_write :
+  write_with_limit 151 (chunks_pollard ex_pimage) = Err /\
+  write_with_limit 152 (chunks_pollard ex_pimage) = Ok 152%nat.
+Proof. vm_compute. auto. Qed.
+
+(** two cached leaves, three stored positions *)
+Definition ex_mimage : mimage :=
+  mkMimage 3 5 [(ex_hA, 0); (ex_hB, 4)]
+           [(0, (ex_hA, true)); (4, (ex_hB, false)); (9, (ex_hP, false))].
+
+Example ex_mimage_wf : wf_mimage ex_mimage.
+Proof. apply wf_mimageb_sound. vm_compute. reflexivity. Qed.
+
+Example ex_map_roundtrip : decode_map (encode_map ex_mimage) = Ok (ex_mimage, 228%nat).
+Proof. vm_compute. reflexivity. Qed.
+
+Example ex_map_chunked :
+  decode_map_chunked (mkReader (encode_map ex_mimage) [1; 40; 7]%nat false)
+  = Ok (ex_mimage, 228%nat).
+Proof. vm_compute. reflexivity. Qed.
+
+Example ex_map_prefix :
+  forallb (fun k => match decode_map (firstn k (encode_map ex_mimage)) with
+                    | Err => true
+                    | _ => false
+                    end) (seq 0 228) = true.
+Proof. vm_compute. reflexivity. Qed.
+
+Example ex_map_write :
+  write_with_limit 227 (chunks_map ex_mimage) = Err /\
+  write_with_limit 228 (chunks_map ex_mimage) = Ok 228%nat.
+Proof. vm_compute. auto. Qed.
+
+(** a reference state with 5 slots, 2 of them dead, over a toy hash function on byte strings *)
+Definition ex_hash2 (a b : list byte) : list byte :=
+  firstn 32 (map (fun p => (fst p + 2 * snd p + 1) mod 256) (combine a b) ++ repeat 1 32).
+Definition ex_ops : ops (list byte) := mkOps ex_hash2 zeros32 bytes_eqb.
+Definition ex_slots : slots (list byte) := [Some ex_hA; None; Some ex_hB; Some ex_hC; None].
+
+Lemma ex_hash2_length a b : length (ex_hash2 a b) = 32%nat.
+Proof. unfold ex_hash2. rewrite firstn_length, app_length, repeat_length. lia. Qed.
+
+Example ex_forest_wf :
+  wf_pimage (forest_image ex_ops (fun h => h) ex_slots) /\
+  count_leaves (forest_image ex_ops (fun h => h) ex_slots) = 3%nat /\
+  node_count (forest_image ex_ops (fun h => h) ex_slots) = 6%nat.
+Proof.
+  assert (Hex := niece_view_wf_proof (list byte) ex_ops (fun h => h) ex_slots).
+  assert (H1 : N.of_nat (length ex_slots) < 2 ^ 64) by (vm_compute; reflexivity).
+  assert (H2 : N.of_nat (length (live ex_slots)) < 2 ^ 63) by (vm_compute; reflexivity).
+  assert (H3 : forall x y : list byte, length (op_hash2 ex_ops x y) = 32%nat)
+    by (intros x y; apply ex_hash2_length).
+  assert (H4 : forall h, In h (live ex_slots) -> length h = 32%nat /\ is_zeros h = false).
+  { intros h Hin. vm_compute in Hin.
+    destruct Hin as [<-|[<-|[<-|[]]]]; split; vm_compute; reflexivity. }
+  assert (H5 : NoDup (map (fun h => mini h) (live ex_slots)))
+    by (apply nodup_bytesb_sound; vm_compute; reflexivity).
+  specialize (Hex H1 H2 H3 H4 H5).
+  destruct Hex as (Hwf & Hcnt & _). split; [exact Hwf|]. split; [exact Hcnt|].
+  vm_compute. reflexivity.
 Qed.
